@@ -81,7 +81,7 @@ type tmplIn struct {
 }
 
 type stageIn struct {
-	T      string          `json:"t"` // line | label | logfmt | json | unpack | pattern | distinct | drop | keep | labelfmt | linefmt | decolorize | raw
+	T      string          `json:"t"` // line | label | logfmt | json | unpack | pattern | regexp | distinct | drop | keep | labelfmt | linefmt | decolorize | raw
 	Exprs    []jexprIn   `json:"exprs"`
 	Lexprs   []lexprIn   `json:"lexprs"`
 	Parts    []partIn    `json:"parts"`
@@ -230,6 +230,8 @@ func (s *stageIn) text() string {
 		return "| unpack"
 	case "pattern":
 		return "| pattern " + quoteLogQL(patText(s.Parts))
+	case "regexp":
+		return "| regexp " + quoteLogQL(S(s.Val))
 	case "decolorize":
 		return "| decolorize"
 	case "linefmt":
@@ -427,6 +429,20 @@ func genLineFilter(r *rand.Rand) stageIn {
 }
 
 func genStage(r *rand.Rand, allowStateful bool) stageIn {
+	if r.Intn(14) == 0 {
+		// regexp: named groups become labels (k collides with a logfmt key on purpose); the line is untouched
+		names := []string{"k", "grp"}[:1+r.Intn(2)]
+		var re *ReAST
+		for {
+			left := append([]string{}, names...)
+			re = genCapRe(r, 2, "abk= ", &left)
+			if len(left) < len(names) {
+				break
+			}
+		}
+		raw, _ := json.Marshal(re)
+		return stageIn{T: "regexp", Val: B(re.Text()), Re: raw}
+	}
 	switch k := r.Intn(10); {
 	case k < 4:
 		return genLineFilter(r)
